@@ -227,6 +227,9 @@ def run(ctx, canary=False):
                     rel.append(("cdp_eps(cdp_rho(eps,delta),delta) = eps", "near", mlog(iv["ret"]), mlog(eps), 20))
         elif kind == "eps":
             rho, delta = a, b
+            if ret == 0 and rho > 0 and delta < 1:
+                # epsilon 0 claimed sufficient: the implied delta at epsilon = 0 (and the exact Gaussian one) must meet the target
+                rel.append(("sound: implied delta at the returned epsilon 0 <= target", "leq", mlog(delta_indep(rho, 1e-12)), mlog(delta), 2))
             if ret > 0:
                 implied = delta_indep(rho, ret)
                 rel.append(("sound: implied delta <= target", "leq", mlog(implied), mlog(delta), 2))
